@@ -1,10 +1,16 @@
-//! C11: every span of a lexer definition indexes the text the user wrote.
+//! C11 (and the lexing half of C09): a lexer definition is a faithful image of its .l source.
+//! Specifications are *generated* from a structured description (declared start states with
+//! their kind, rules with restriction / regex / name / target operation, optional %grmtools
+//! section, varying separators and quoting); the description is the independent model that
+//! the parsed definition and its lexing behaviour are compared with.
 use crate::{witness, Outcome};
-use lrlex::{DefaultLexerTypes, LRNonStreamingLexerDef, LexerDef};
+use lrlex::{DefaultLexerTypes, LRNonStreamingLexerDef, LexerDef, StartStateOperation};
+use lrpar::{LexError, Lexeme, Lexer, NonStreamingLexer};
 use serde_json::{json, Value};
 use std::panic::{catch_unwind, AssertUnwindSafe};
 
-fn check(src: &str) -> Result<(), String> {
+// ---------------------------------------------------------------- spans only (any source text)
+fn check_spans(src: &str) -> Result<(), String> {
     let def = match LRNonStreamingLexerDef::<DefaultLexerTypes<u32>>::from_str(src) { Ok(d) => d, Err(errs) => {
         for e in &errs {
             for sp in cfgrammar::Spanned::spans(e) {
@@ -31,12 +37,173 @@ fn check(src: &str) -> Result<(), String> {
     Ok(())
 }
 
+// ---------------------------------------------------------------- structured description
+#[derive(Clone, Debug)]
+struct Decl { word: &'static str, names: Vec<&'static str>, sep: &'static str, exclusive: bool }
+#[derive(Clone, Debug)]
+struct RuleD { restrict: Vec<usize>, ch: char, name: Option<(String, char)>, target: Option<(usize, u8)>, sep: &'static str }
+#[derive(Clone, Debug)]
+struct Desc { header: &'static str, decls: Vec<Decl>, rules: Vec<RuleD> }
+
+struct Lcg(u64);
+impl Lcg {
+    fn next(&mut self, n: usize) -> usize {
+        self.0 = self.0.wrapping_mul(6364136223846793005).wrapping_add(1442695040888963407);
+        ((self.0 >> 33) as usize) % n
+    }
+}
+
+const HEADERS: &[&str] = &["", "", "%grmtools{!octal}\n", "%grmtools {dot_matches_new_line}\n\n"];
+const NAMES: &[&str] = &["AA", "BB", "CC", "DD"];
+const INCL: &[&str] = &["%s", "%S", "%start", "%Sx"];
+const EXCL: &[&str] = &["%x", "%X", "%xstate", "%Xs"];
+
+fn states_of(d: &Desc) -> Vec<(&'static str, bool)> {
+    let mut v = vec![("INITIAL", false)];
+    for dl in &d.decls { for n in &dl.names { v.push((n, dl.exclusive)); } }
+    v
+}
+
+fn gen_desc(rng: &mut Lcg) -> Desc {
+    let header = HEADERS[rng.next(HEADERS.len())];
+    let mut decls = Vec::new();
+    let mut pool: Vec<&'static str> = NAMES.to_vec();
+    let nd = rng.next(3);
+    for _ in 0..nd {
+        if pool.is_empty() { break; }
+        let exclusive = rng.next(2) == 1;
+        let word = if exclusive { EXCL[rng.next(EXCL.len())] } else { INCL[rng.next(INCL.len())] };
+        let k = 1 + rng.next(2.min(pool.len()));
+        let names: Vec<&'static str> = pool.drain(..k).collect();
+        decls.push(Decl { word, names, sep: [" ", "\t"][rng.next(2)], exclusive });
+    }
+    let mut d = Desc { header, decls, rules: Vec::new() };
+    let nst = states_of(&d).len();
+    let nr = 2 + rng.next(4);
+    for k in 0..nr {
+        let ch = (b'a' + k as u8) as char;
+        let mut restrict = Vec::new();
+        for _ in 0..rng.next(3) { let s = rng.next(nst); if !restrict.contains(&s) { restrict.push(s); } }
+        let name = match rng.next(4) { 0 => None, 1 => Some((ch.to_uppercase().to_string(), '"')), _ => Some((ch.to_uppercase().to_string(), '\'')) };
+        let target = if rng.next(2) == 0 { None } else { Some((rng.next(nst), rng.next(3) as u8)) };
+        d.rules.push(RuleD { restrict, ch, name, target, sep: [" ", "\t", "  "][rng.next(3)] });
+    }
+    d
+}
+
+fn render(d: &Desc) -> String {
+    let st = states_of(d);
+    let mut s = String::from(d.header);
+    for dl in &d.decls {
+        s.push_str(dl.word);
+        for n in &dl.names { s.push_str(dl.sep); s.push_str(n); }
+        s.push('\n');
+    }
+    s.push_str("%%\n");
+    for r in &d.rules {
+        if !r.restrict.is_empty() {
+            s.push('<');
+            s.push_str(&r.restrict.iter().map(|&i| st[i].0).collect::<Vec<_>>().join(","));
+            s.push('>');
+        }
+        s.push(r.ch);
+        s.push_str(r.sep);
+        if let Some((t, op)) = r.target {
+            s.push('<');
+            match op { 1 => s.push('+'), 2 => s.push('-'), _ => {} }
+            s.push_str(st[t].0);
+            s.push('>');
+        }
+        match &r.name { None => s.push(';'), Some((n, q)) => { s.push(*q); s.push_str(n); s.push(*q); } }
+        s.push('\n');
+    }
+    s
+}
+
+/// what the description says lexing `input` yields: (token name, start, len) ... and where it stops
+fn model_lex(d: &Desc, input: &str) -> (Vec<(String, usize, usize)>, Option<usize>) {
+    let st = states_of(d);
+    let mut stack = vec![0usize];
+    let mut out = Vec::new();
+    for (i, c) in input.char_indices() {
+        let cur = *stack.last().unwrap();
+        let hit = d.rules.iter().find(|r| r.ch == c && (if r.restrict.is_empty() { !st[cur].1 } else { r.restrict.contains(&cur) }));
+        match hit {
+            None => return (out, Some(i)),
+            Some(r) => {
+                if let Some((n, _)) = &r.name { out.push((n.clone(), i, c.len_utf8())); }
+                if let Some((t, op)) = r.target {
+                    match op {
+                        0 => { stack.clear(); stack.push(t); }
+                        1 => stack.push(t),
+                        _ => { stack.pop(); if stack.is_empty() { stack.push(0); } }
+                    }
+                }
+            }
+        }
+    }
+    (out, None)
+}
+
+fn check_desc(d: &Desc, src: &str, inputs: &[String]) -> Result<(), String> {
+    check_spans(src)?;
+    let def = LRNonStreamingLexerDef::<DefaultLexerTypes<u32>>::from_str(src).map_err(|e| format!("a well-formed specification was rejected: {:?}", e.iter().map(|x| x.to_string()).collect::<Vec<_>>()))?;
+    let st = states_of(d);
+    let got_st: Vec<String> = def.iter_start_states().map(|s| s.name().to_string()).collect();
+    let exp_st: Vec<String> = st.iter().map(|s| s.0.to_string()).collect();
+    if got_st != exp_st { return Err(format!("declared start states {:?}, written {:?}", got_st, exp_st)); }
+    let rules: Vec<_> = def.iter_rules().collect();
+    if rules.len() != d.rules.len() { return Err(format!("{} rules, written {}", rules.len(), d.rules.len())); }
+    for (k, (r, rd)) in rules.iter().zip(d.rules.iter()).enumerate() {
+        if r.name() != rd.name.as_ref().map(|x| x.0.as_str()) { return Err(format!("rule {}: name {:?}, written {:?}", k, r.name(), rd.name)); }
+        if r.re_str() != rd.ch.to_string() { return Err(format!("rule {}: regex {:?}, written {:?}", k, r.re_str(), rd.ch)); }
+        if r.start_states() != rd.restrict.as_slice() { return Err(format!("rule {}: restricted to states {:?}, written {:?}", k, r.start_states(), rd.restrict)); }
+        let exp_t = rd.target.map(|(t, op)| (t, match op { 0 => StartStateOperation::ReplaceStack, 1 => StartStateOperation::Push, _ => StartStateOperation::Pop }));
+        if r.target_state() != exp_t { return Err(format!("rule {}: target {:?}, written {:?}", k, r.target_state(), exp_t)); }
+    }
+    for input in inputs {
+        let lexer = def.lexer(input);
+        let mut got = Vec::new();
+        let mut got_err = None;
+        for l in lexer.iter() {
+            match l {
+                Ok(l) => got.push((def.get_rule_by_id(l.tok_id()).name().unwrap_or("").to_string(), l.span().start(), l.span().len())),
+                Err(e) => { got_err = Some(e.span().start()); break; }
+            }
+        }
+        let (exp, exp_err) = model_lex(d, input);
+        if got != exp || got_err != exp_err {
+            return Err(format!("lexing {:?}: lexemes {:?} stop {:?}; the specification says {:?} stop {:?}", input, got, got_err, exp, exp_err));
+        }
+    }
+    Ok(())
+}
+
+fn inputs_for(d: &Desc, rng: &mut Lcg) -> Vec<String> {
+    let n = d.rules.len();
+    (0..8).map(|_| { let l = 1 + rng.next(6); (0..l).map(|_| (b'a' + rng.next(n) as u8) as char).collect() }).collect()
+}
+
 pub fn run(src: &str) -> Outcome {
     let expected = "every name span reads the name in the text the user wrote".to_string();
-    match catch_unwind(AssertUnwindSafe(|| check(src))) {
+    match catch_unwind(AssertUnwindSafe(|| check_spans(src))) {
         Err(_) => Outcome { fails: true, observed: "panic".into(), expected },
         Ok(Ok(())) => Outcome { fails: false, observed: "ok".into(), expected },
         Ok(Err(e)) => Outcome { fails: true, observed: e, expected },
+    }
+}
+
+/// re-run of a generated case: the description is regenerated from its seed
+pub fn run_gen(seed: u64) -> Outcome {
+    let expected = "the parsed definition and its lexing behaviour are those of the written specification".to_string();
+    let mut rng = Lcg(seed);
+    let d = gen_desc(&mut rng);
+    let src = render(&d);
+    let inputs = inputs_for(&d, &mut rng);
+    match catch_unwind(AssertUnwindSafe(|| check_desc(&d, &src, &inputs))) {
+        Err(_) => Outcome { fails: true, observed: format!("panic on {:?}", src), expected },
+        Ok(Ok(())) => Outcome { fails: false, observed: "ok".into(), expected },
+        Ok(Err(e)) => Outcome { fails: true, observed: format!("{} [source {:?}]", e, src), expected },
     }
 }
 
@@ -46,11 +213,13 @@ const SRCS: &[&str] = &[
     "%s AA BB\n%x CC\n%%\n<AA>a 'a'\n<CC>c <+BB>'c'\nb 'b'\n",
     "%grmtools{case_insensitive}\n%s AA\n%%\n<AA>a 'a'\n",
     "%s AA\u{200E}BB CC\n%%\na 'a'\n",
+    "%s AA  BB\n%%\na 'a'\n",
+    "%s  AA\tBB \n%%\na 'a'\n",
     "%%\na <+INITIAL>'x'\n",
 ];
 
-pub fn search(tag: &str, _tier: &str) -> Option<Value> {
-    let want_header = tag.contains("header") || tag.contains("base");
+pub fn search(tag: &str, tier: &str) -> Option<Value> {
+    let want_header = tag.contains("whole_text");
     let mut other = None;
     for s in SRCS {
         let o = run(s);
@@ -60,5 +229,11 @@ pub fn search(tag: &str, _tier: &str) -> Option<Value> {
             if other.is_none() { other = Some(w); }
         }
     }
-    other
+    if other.is_some() { return other; }
+    let n = if tier == "thorough" { 20000 } else { 2000 };
+    for seed in 1..=n {
+        let o = run_gen(seed);
+        if o.fails { return Some(witness("c11_gen", json!({"seed": seed}), &o)); }
+    }
+    None
 }
